@@ -869,4 +869,188 @@ theorem readFEN_toFEN_fixup (p : Pos) (h : WFfenPre p) : readFEN (toFEN p) = .ok
   rw [readFEN_toFEN_general p h, fixupEP_counters p 0 1]
   exact congrArg Except.ok (fixupEP_eq p).symm
 
+/-! ## converse direction: facts about every position the reader returns -/
+
+/-- `fixupEP` keeps the e.p. square or clears it -/
+theorem fixupEP_ep_cases (q : Pos) : (fixupEP q).ep = q.ep ∨ (fixupEP q).ep = none := by
+  unfold fixupEP
+  split
+  · left; rfl
+  · split
+    · left; rfl
+    · right; rfl
+
+/-- what a successful `fenFinish` guarantees -/
+theorem fenFinish_inv (b : Board) (wtm : Bool) (cm : UInt8) (ep : Option Sq) (hmc fmc : Int) (r : RawPos)
+    (h : fenFinish b wtm cm ep hmc fmc = .ok r) :
+    r.b = b ∧ r.wtm = wtm ∧ r.castle = cm ∧ (r.ep = ep ∨ r.ep = none) ∧ r.hmc = hmc ∧ r.fmc = fmc ∧
+    countPc b WKING = 1 ∧ countPc b BKING = 1 ∧ inCheck b (!wtm) = false := by
+  unfold fenFinish at h
+  split at h
+  · cases h
+  · split at h
+    · cases h
+    · split at h
+      · cases h
+      · rename_i h1 h2 h3
+        simp only [Except.ok.injEq] at h
+        subst h
+        refine ⟨rfl, rfl, rfl, ?_, rfl, rfl, ?_, ?_, ?_⟩
+        · exact fixupEP_ep_cases { b := b, wtm := wtm, castle := cm, ep := ep, hmc := 0, fmc := 1 }
+        · simpa using h1
+        · simpa using h2
+        · simpa using h3
+
+/-- the e.p. field only ever yields a plausible square -/
+theorem epField_plausible (b : Board) (wtm : Bool) (rest : List Char) (e : Sq)
+    (h : epField b wtm rest = .ok (some e)) : epPlausible b wtm e := by
+  unfold epField at h
+  split at h
+  · cases h
+  · cases h
+  · cases h
+  · simp only [] at h
+    split at h
+    · cases h
+    · rename_i e' _
+      unfold epPlausible
+      cases wtm
+      · simp only [Bool.false_eq_true, if_false] at h ⊢
+        split at h
+        · cases h
+        · rename_i hc
+          have : e' = e := by simpa [pure, Except.pure] using h
+          subst this
+          simpa [and_assoc] using hc
+      · simp only [if_true] at h ⊢
+        split at h
+        · cases h
+        · rename_i hc
+          have : e' = e := by simpa [pure, Except.pure] using h
+          subst this
+          simpa [and_assoc] using hc
+
+private theorem and_bit_zero (x m bit : UInt8) (h : x &&& bit = 0) : (x &&& m) &&& bit = 0 := by
+  rw [UInt8.and_assoc, UInt8.and_comm m bit, ← UInt8.and_assoc, h, UInt8.zero_and]
+
+private theorem and_not_bit (x bit : UInt8) : (x &&& ~~~bit) &&& bit = 0 := by
+  rw [UInt8.and_assoc]
+  have : ~~~bit &&& bit = 0 := by
+    apply UInt8.eq_of_toBitVec_eq
+    simp
+  rw [this, UInt8.and_zero]
+
+private theorem ite_keep_zero (c : Bool) (x m bit : UInt8) (h : x &&& bit = 0) :
+    (if c = true then x &&& m else x) &&& bit = 0 := by
+  split
+  · exact and_bit_zero x m bit h
+  · exact h
+
+private theorem ite_clear (c : Bool) (x bit : UInt8) (hc : c = true) :
+    (if c = true then x &&& ~~~bit else x) &&& bit = 0 := by
+  rw [if_pos hc]; exact and_not_bit x bit
+
+/-- after the reader's clean-up every remaining castling right has king and rook at home (any input mask) -/
+theorem castleFix_consistent (b : Board) (cm : UInt8) :
+    (castleFix b cm &&& 2 ≠ 0 → b[4] = WKING ∧ b[7] = WROOK) ∧
+    (castleFix b cm &&& 1 ≠ 0 → b[4] = WKING ∧ b[0] = WROOK) ∧
+    (castleFix b cm &&& 8 ≠ 0 → b[60] = BKING ∧ b[63] = BROOK) ∧
+    (castleFix b cm &&& 4 ≠ 0 → b[60] = BKING ∧ b[56] = BROOK) := by
+  simp only [castleFix]
+  refine ⟨?_, ?_, ?_, ?_⟩
+  · intro h
+    by_cases c : (b.getD 4 0 != WKING || b.getD 7 0 != WROOK) = true
+    · exfalso; apply h
+      exact ite_keep_zero _ _ _ _ (ite_keep_zero _ _ _ _ (ite_keep_zero _ _ _ _ (ite_clear _ _ _ c)))
+    · simpa [Vector.getD] using c
+  · intro h
+    by_cases c : (b.getD 4 0 != WKING || b.getD 0 0 != WROOK) = true
+    · exfalso; apply h
+      exact ite_keep_zero _ _ _ _ (ite_keep_zero _ _ _ _ (ite_clear _ _ _ c))
+    · simpa [Vector.getD] using c
+  · intro h
+    by_cases c : (b.getD 60 0 != BKING || b.getD 63 0 != BROOK) = true
+    · exfalso; apply h
+      exact ite_keep_zero _ _ _ _ (ite_clear _ _ _ c)
+    · simpa [Vector.getD] using c
+  · intro h
+    by_cases c : (b.getD 60 0 != BKING || b.getD 56 0 != BROOK) = true
+    · exfalso; apply h
+      exact ite_clear _ _ _ c
+    · simpa [Vector.getD] using c
+
+/-- a successful `fenReadRest` went through `epField` and `fenFinish` with a cleaned-up castling mask -/
+theorem fenReadRest_inv (b : Board) (sc : Char) (rest : List Char) (r : RawPos)
+    (h : fenReadRest b sc rest = .ok r) :
+    ∃ (cm : UInt8) (ep : Option Sq) (rest' : List Char) (hmc fmc : Int),
+      epField b (sc == 'w') rest' = .ok ep ∧ fenFinish b (sc == 'w') (castleFix b cm) ep hmc fmc = .ok r := by
+  simp only [fenReadRest, bind, Except.bind] at h
+  split at h
+  · cases h
+  · split at h
+    · cases h
+    · exact ⟨_, _, _, _, _, by assumption, h⟩
+
+/-- a successful `readFENRaw` went through `fenReadRest` on the parsed board -/
+theorem readFENRaw_inv (s : String) (r : RawPos) (h : readFENRaw s = .ok r) :
+    ∃ (b : Board) (sc : Char) (rest : List Char), fenReadRest b sc rest = .ok r := by
+  rw [readFENRaw_eq] at h
+  simp only [Except.bind] at h
+  split at h
+  · cases h
+  · split at h
+    · cases h
+    · exact ⟨_, _, _, h⟩
+
+/-- everything the reader guarantees about its (raw) result, collected -/
+theorem readFENRaw_facts (s : String) (r : RawPos) (h : readFENRaw s = .ok r) :
+    (∀ e : Sq, r.ep = some e → epPlausible r.b r.wtm e) ∧
+    countPc r.b WKING = 1 ∧ countPc r.b BKING = 1 ∧ inCheck r.b (!r.wtm) = false ∧
+    (r.castle &&& 2 ≠ 0 → r.b[4] = WKING ∧ r.b[7] = WROOK) ∧
+    (r.castle &&& 1 ≠ 0 → r.b[4] = WKING ∧ r.b[0] = WROOK) ∧
+    (r.castle &&& 8 ≠ 0 → r.b[60] = BKING ∧ r.b[63] = BROOK) ∧
+    (r.castle &&& 4 ≠ 0 → r.b[60] = BKING ∧ r.b[56] = BROOK) := by
+  obtain ⟨b, sc, rest, h1⟩ := readFENRaw_inv s r h
+  obtain ⟨cm, ep, rest', hmc, fmc, hep, hfin⟩ := fenReadRest_inv b sc rest r h1
+  obtain ⟨hb, hw, hc, hepr, _, _, hk1, hk2, hk3⟩ := fenFinish_inv _ _ _ _ _ _ _ hfin
+  obtain ⟨c2, c1, c8, c4⟩ := castleFix_consistent b cm
+  rw [hb, hw, hc]
+  refine ⟨?_, hk1, hk2, hk3, c2, c1, c8, c4⟩
+  intro e he
+  rcases hepr with h' | h'
+  · rw [h'] at he
+    rw [he] at hep
+    exact epField_plausible _ _ _ _ hep
+  · rw [h'] at he; cases he
+
+private theorem readFEN_raw (s : String) (p : Pos) (h : readFEN s = .ok p) :
+    ∃ r : RawPos, readFENRaw s = .ok r ∧ r.toPos = p := by
+  unfold readFEN at h
+  cases hr : readFENRaw s with
+  | error e => rw [hr] at h; cases h
+  | ok r => rw [hr] at h; exact ⟨r, rfl, by simpa [Except.map] using h⟩
+
+/-- **(1)** the reader only keeps an e.p. square that is on the right rank, empty, with the enemy pawn behind it -/
+theorem readFEN_epPlausible (s : String) (p : Pos) (h : readFEN s = .ok p) :
+    ∀ e : Sq, p.ep = some e → epPlausible p.b p.wtm e := by
+  obtain ⟨r, hr, rfl⟩ := readFEN_raw s p h
+  exact (readFENRaw_facts s r hr).1
+
+/-- **(2a)** one king each, and the side not to move is not in check -/
+theorem readFEN_kings (s : String) (p : Pos) (h : readFEN s = .ok p) :
+    countPc p.b WKING = 1 ∧ countPc p.b BKING = 1 ∧ inCheck p.b (!p.wtm) = false := by
+  obtain ⟨r, hr, rfl⟩ := readFEN_raw s p h
+  obtain ⟨_, a, b, c, _⟩ := readFENRaw_facts s r hr
+  exact ⟨a, b, c⟩
+
+/-- **(2b)** every castling right returned by the reader has king and rook on their home squares -/
+theorem readFEN_castle (s : String) (p : Pos) (h : readFEN s = .ok p) :
+    (p.castle &&& 2 ≠ 0 → p.b[4] = WKING ∧ p.b[7] = WROOK) ∧
+    (p.castle &&& 1 ≠ 0 → p.b[4] = WKING ∧ p.b[0] = WROOK) ∧
+    (p.castle &&& 8 ≠ 0 → p.b[60] = BKING ∧ p.b[63] = BROOK) ∧
+    (p.castle &&& 4 ≠ 0 → p.b[60] = BKING ∧ p.b[56] = BROOK) := by
+  obtain ⟨r, hr, rfl⟩ := readFEN_raw s p h
+  obtain ⟨_, _, _, _, c⟩ := readFENRaw_facts s r hr
+  exact c
+
 end Chess
